@@ -1,0 +1,9 @@
+//go:build verif
+// +build verif
+
+package chain
+
+import "github.com/LemoFoundationLtd/lemochain-core/chain/consensus"
+
+// VerifEngine exposes the consensus engine of a BlockChain to the conformance harness (build tag verif only).
+func (bc *BlockChain) VerifEngine() *consensus.DPoVP { return bc.engine }
